@@ -76,6 +76,23 @@ static bool handle_runtime_error(sqf::runtime::runtime& runtime, sqf::runtime::c
     }
 }
 
+// Tests the time limit of the current run. Once it is exceeded the run is aborted:
+// reported, exit requested, and no error state is left behind. Returns true in that case.
+static bool max_runtime_reached(sqf::runtime::runtime& runtime, sqf::runtime::diagnostics::diag_info location)
+{
+    if (runtime.configuration().max_runtime == std::chrono::milliseconds::zero() ||
+        !(runtime.configuration().max_runtime + runtime.run_timestamp() < std::chrono::system_clock::now()))
+    {
+        return false;
+    }
+    runtime.__logmsg(logmessage::runtime::MaximumRuntimeReached(location, runtime.configuration().max_runtime));
+    runtime.exit(0);
+    // The run did not complete: report it as failed, and do not leave the error state behind
+    runtime.__runtime_error() = false;
+    runtime.log_messages.clear();
+    return true;
+}
+
 static sqf::runtime::runtime::result execute_do(sqf::runtime::runtime& runtime, size_t exit_after)
 {
     auto& context_active = runtime.context_active();
@@ -148,6 +165,20 @@ static sqf::runtime::runtime::result execute_do(sqf::runtime::runtime& runtime, 
             continue;
         }
 
+        if (result == sqf::runtime::frame::result::restarted)
+        { // A loop without instructions went round once: it counts against the slice and the time limit like an instruction
+            auto parent = context_active.frames_size() > 1 ? context_active.frames_rbegin() + 1 : context_active.frames_rend();
+            if (max_runtime_reached(runtime, parent != context_active.frames_rend() ? parent->diag_info_from_position() : sqf::runtime::diagnostics::diag_info{}))
+            {
+                return sqf::runtime::runtime::result::runtime_error;
+            }
+            if (exit_after > 0)
+            {
+                exit_after--;
+            }
+            continue;
+        }
+
         if (result == sqf::runtime::frame::result::done && context_active.frames_size() == frame_count)
         { // frame is done executing. Pop it from context and rerun.
 
@@ -172,8 +203,7 @@ static sqf::runtime::runtime::result execute_do(sqf::runtime::runtime& runtime, 
         }
 
         auto instruction = frame.current();
-        if (runtime.configuration().max_runtime != std::chrono::milliseconds::zero() &&
-            runtime.configuration().max_runtime + runtime.run_timestamp() < std::chrono::system_clock::now())
+        if (max_runtime_reached(runtime, (*instruction)->diag_info()))
         {
 #ifdef DF__SQF_RUNTIME__ASSEMBLY_DEBUG_ON_EXECUTE
             std::cout << "\x1B[33m[ASSEMBLY ASSERT]\033[0m" <<
@@ -181,11 +211,6 @@ static sqf::runtime::runtime::result execute_do(sqf::runtime::runtime& runtime, 
                 "        " <<
                 "    " << "\x1B[36mEXIT execute_do\033[0m as max runtime (\x1B[90m" << runtime.configuration().max_runtime.count() << "ms\033[0m) was reached" << std::endl;
 #endif // DF__SQF_RUNTIME__ASSEMBLY_DEBUG_ON_EXECUTE
-            runtime.__logmsg(logmessage::runtime::MaximumRuntimeReached((*instruction)->diag_info(), runtime.configuration().max_runtime));
-            runtime.exit(0);
-            // The run did not complete: report it as failed, and do not leave the error state behind
-            runtime_error = false;
-            runtime.log_messages.clear();
             return sqf::runtime::runtime::result::runtime_error;
         }
 
@@ -385,6 +410,10 @@ sqf::runtime::runtime::result sqf::runtime::runtime::execute(sqf::runtime::runti
                         {
                             m_context_active->unsuspend();
                             res = execute_do(*this, 150);
+                        }
+                        else if (max_runtime_reached(*this, m_context_active->empty() ? sqf::runtime::diagnostics::diag_info{} : m_context_active->current_frame().diag_info_from_position()))
+                        { // Nothing executes while scripts sleep, the time limit applies nevertheless
+                            res = result::runtime_error;
                         }
                         else
                         {
